@@ -649,7 +649,7 @@ def pre_tokens(d, arr):
     for it in items:
         # disk path kind selected missing unrec larger state partial nanc anc...
         t += [str(it['disk']), str(it['path']), it['kind'], b(it['selected']), b(it['missing']), b(it.get('unrec', False)),
-              b(it.get('larger', False)), it['state'], b(it.get('partial', False)), str(len(it.get('anc', [])))] + [str(a) for a in it.get('anc', [])]
+              b(it.get('larger', False)), it['state'], b(it.get('partial', False)), b(it.get('unsynced', False)), b(it.get('finished', True)), str(len(it.get('anc', [])))] + [str(a) for a in it.get('anc', [])]
     fp = d.get('fix_parity', [])
     t += ['F', str(len(fp))] + ['%d:%d' % x for x in fp]
     t += [''.join(map(b, d.get('fix_resize', [False] * d['level']))) or '-']
